@@ -3,6 +3,7 @@
 package main
 
 import (
+	"bufio"
 	"bytes"
 	"encoding/binary"
 	"fmt"
@@ -67,6 +68,11 @@ func c33PutU16s(xs []int) []byte {
 }
 
 func c33Hex(b []byte) string { return H(b) }
+
+// c33Sink is a plain io.Writer (deliberately no ReadFrom), the destination of io.Copy / WriteTo in the reader ops.
+type c33Sink struct{ b []byte }
+
+func (s *c33Sink) Write(p []byte) (int, error) { s.b = append(s.b, p...); return len(p), nil }
 
 // c33Scribble overwrites a slice the harness has passed to Write, right after Write returned: io.Writer forbids
 // Write to retain p, so the writer may reuse its buffer at once; whatever the peer reads later must still be the
@@ -340,6 +346,90 @@ func c33BuildSeq(a [][]byte) *Case {
 			if en == "nil" && k == 0 && n > 0 {
 				tags["seq-read-0-nil"] = true
 			}
+		case 'K', 'B', 'F':
+			// the other reader entry points: io.Copy(sink, conn) — picks io.WriterTo of the conn if it has one —,
+			// a bufio.Reader over the conn + WriteTo, io.ReadFull.  All of them must deliver the stream in order.
+			if e < 1 || e > 2 {
+				return nil
+			}
+			if closed {
+				conns[e].SetReadDeadline(time.Now().Add(c33Slack))
+			} else {
+				conns[e].SetReadDeadline(expired)
+			}
+			var data []byte
+			var err error
+			want := -1
+			switch op {
+			case 'K':
+				sink := &c33Sink{}
+				_, err = io.Copy(sink, conns[e])
+				data = sink.b
+				if err == nil {
+					err = io.EOF // io.Copy reports a clean end of the stream as nil
+				}
+			case 'B':
+				br := bufio.NewReaderSize(conns[e], 16)
+				if c, rerr := br.ReadByte(); rerr == nil { // fills bufio's buffer: a PARTIAL read of the current block
+					data = append(data, c)
+				}
+				sink := &c33Sink{}
+				_, err = br.WriteTo(sink)
+				data = append(data, sink.b...)
+				if err == nil {
+					err = io.EOF
+				}
+			case 'F':
+				n, ok := c33Atoi(a[i+2])
+				if !ok || n > 1<<20 {
+					return nil
+				}
+				want = n
+				buf := make([]byte, n)
+				k, rerr := io.ReadFull(conns[e], buf)
+				data, err = buf[:k], rerr
+				if rerr == io.ErrUnexpectedEOF {
+					err = io.EOF
+				}
+			}
+			tags["seq-read-"+string(op)] = true
+			o := 3 - e
+			got[e] = append(got[e], data...)
+			if !bytes.HasPrefix(wrote[o], got[e]) {
+				fail("stream-not-prefix", "end %d has read %d bytes (last through %s: %d bytes) that are not a prefix of the %d bytes written at end %d",
+					e, len(got[e]), map[byte]string{'K': "io.Copy", 'B': "bufio.Reader.WriteTo", 'F': "io.ReadFull"}[op], len(data), len(wrote[o]), o)
+			}
+			en := "err"
+			switch err {
+			case nil:
+				en = "nil"
+				if want >= 0 && len(data) != want {
+					fail("readfull-short", "io.ReadFull(%d) returned %d bytes and nil", want, len(data))
+				}
+			case io.EOF:
+				en = "eof"
+				if !closed {
+					fail("eof-before-close", "%c at end %d reached EOF although the pipe was not closed", op, e)
+				}
+				if len(got[e]) != len(wrote[o]) {
+					fail("eof-before-drain", "%c at end %d reached EOF after %d of %d written bytes", op, e, len(got[e]), len(wrote[o]))
+				}
+			case error(fasthttputil.ErrTimeout):
+				en = "block"
+				if closed {
+					fail("read-blocks-after-close", "%c at end %d waited on a closed pipe", op, e)
+				}
+			default:
+				fail("read-unknown-error", "%c at end %d returned unexpected error %v", op, e, err)
+			}
+			if len(data) > 0 {
+				nR++
+			}
+			pre := "K:"
+			if op == 'F' {
+				pre = "F:"
+			}
+			obs = append(obs, pre+c33Hex(data)+":"+en)
 		case 'C':
 			var err error
 			switch e {
@@ -1445,7 +1535,20 @@ func c33GenSeq(r *Rand, emit func(string, ...[]byte)) {
 				out[e]++
 			}
 		default:
-			op('R', 3-e, rsize())
+			switch q := r.Intn(100); {
+			case q < 12:
+				// a partial read of the current block, then one of the bulk entry points
+				op('R', 3-e, 1+r.Intn(40))
+				op("KBK"[r.Intn(3)], 3-e, 0)
+				out[e] = 0
+			case q < 20:
+				op('F', 3-e, rsize())
+			case q < 24:
+				op("KB"[r.Intn(2)], 3-e, 0)
+				out[e] = 0
+			default:
+				op('R', 3-e, rsize())
+			}
 			if out[e] > 0 {
 				out[e]--
 			}
@@ -1458,6 +1561,10 @@ func c33GenSeq(r *Rand, emit func(string, ...[]byte)) {
 		}
 		w(1 + r.Intn(2))
 		for e := 1; e <= 2; e++ {
+			if r.Chance(40) {
+				op('R', e, 1+r.Intn(64))
+				op("KBF"[r.Intn(3)], e, 1+r.Intn(5000))
+			}
 			for k := 0; k < 3+r.Intn(5); k++ {
 				op('R', e, 1+r.Intn(8192))
 			}
